@@ -54,8 +54,8 @@ structure Sub where
 /-- Everything pushed to this subscriber, oldest first. -/
 def Sub.seq (u : Sub) : List Entry := u.delivered ++ u.hand.toList ++ u.buf
 
-def Sub.new (id tag call joinedAt : Nat) : Sub :=
-  { id, tag, call, joinedAt, buf := [], hand := none, delivered := [], cancelled := false,
+def Sub.new (id tag call joinedAt : Nat) (cancelled : Bool := false) : Sub :=
+  { id, tag, call, joinedAt, buf := [], hand := none, delivered := [], cancelled,
     exitClosed := false, inList := true, pc := .idle, missed := false }
 
 structure State where
@@ -72,6 +72,7 @@ structure State where
   nextTag : Nat
   waitS : List (Nat × Nat)        -- Subscribe calls waiting for the lock: (tag of the first channel, number of channels)
   retS : List Nat
+  cancelledCalls : List Nat       -- Subscribe calls whose context has been cancelled
   closeNew : Nat                  -- Close called, before the CAS
   closePre : Nat                  -- after the CAS, before passing the lock (fixed only)
   closePost : Nat                 -- in wg.Wait
@@ -80,7 +81,7 @@ structure State where
 
 def init : State :=
   { subs := [], currentID := 0, bc := none, closed := false, closeCh := false, log := [], nextTicket := 0,
-    waitB := [], retB := [], returnedT := [], nextTag := 0, waitS := [], retS := [],
+    waitB := [], retB := [], returnedT := [], nextTag := 0, waitS := [], retS := [], cancelledCalls := [],
     closeNew := 0, closePre := 0, closePost := 0, closeReturned := 0 }
 
 inductive Label
@@ -183,7 +184,8 @@ def subCall (s : State) (n : Nat) : Option State :=
 
 /-- The subscribers registered by one `Subscribe` call for its first `j` channels. -/
 def newSubs (s : State) (t j : Nat) : List Sub :=
-  (List.range j).map (fun m => Sub.new (s.currentID + m) (t + m) t s.log.length)
+  (List.range j).map (fun m =>
+    Sub.new (s.currentID + m) (t + m) t s.log.length (s.cancelledCalls.contains t))
 
 /-- `Subscribe` holds the lock and runs `subscribe(ctx, c)` for each channel; each of them reads
 `closed`.  With the repaired `Close` the CAS is not under the lock, so it may fall between two of
@@ -211,11 +213,13 @@ def subReturn (s : State) (h : Nat) : Option State :=
   if h ∈ s.retS then some { s with retS := s.retS.erase h } else none
 
 /-- The context passed to the `Subscribe` call `c` is cancelled: every subscriber it registered
-sees `ctx.Done()` closed. -/
+sees `ctx.Done()` closed, and every subscriber it registers later is born with a cancelled context
+(`Subscribe` may be called with a context that is already cancelled, or be overtaken by the
+cancellation while it waits for the lock). -/
 def cancelSub (c : Nat) (u : Sub) : Sub := if u.call = c then { u with cancelled := true } else u
 
 def cancel (s : State) (c : Nat) : Option State :=
-  some { s with subs := s.subs.map (cancelSub c) }
+  some { s with subs := s.subs.map (cancelSub c), cancelledCalls := c :: s.cancelledCalls }
 
 def fwdTake (s : State) (i : Nat) : Option State :=
   match s.subs[i]? with
